@@ -25,7 +25,8 @@ CONSTANTS Tasks,            \* task ids
           DevFracSameGpu,       \* D2: fractional shares of one task on one GPU
           DevSuppliedUnmarked,  \* D3: app-supplied slots neither checked nor marked
           DevRanksFallthrough,  \* D4: ranks <= 0 failed, then scheduled anyway
-          DevFracDownRaises     \* D5: fractional GPU request meets blocked GPU -> raise
+          DevFracDownRaises,    \* D5: fractional GPU request meets blocked GPU -> raise
+          DevNoWakeOnRelease    \* a release does not set the `resources` flag again (starvation)
 
 VARIABLES O, active, pool, qS, qU, plist, clist,
           pc, resources, rwait, rinc, act, todo, towait, toSched, curPrio, lastw, uany,
@@ -41,8 +42,7 @@ Tags      == {Shape[t].colo : t \in Tasks} \ {"none"}
 FitsNow(t)  == Fits(O, Shape[t], Hist(t), FALSE, FALSE)          \* intended accounting
 FitsCode(t) == Fits(O, Shape[t], Hist(t), DevNoLfsCheck, DevFracSameGpu)
 \* a task which brings its own placement fits when exactly that placement is free
-SupValid(t)  == /\ ShapeOK(Shape[t], Supplied[t], {}) /\ NoBlocked([x \in {t} |-> Supplied[t]])
-                /\ OnlyNodes([x \in {t} |-> Supplied[t]])
+SupValid(t)  == SupUsable(Supplied[t])
 FitsNowS(t)  == IF Supplied[t] # <<>> THEN SupValid(t) /\ CanTake(O, Supplied[t]) ELSE FitsNow(t)
 FitsIdleS(t) == IF Supplied[t] # <<>> THEN SupValid(t) /\ CanTake(InitOcc, Supplied[t])
                 ELSE FitsIdle(Shape[t], Hist(t))
@@ -116,10 +116,9 @@ FracRaise(t) == /\ DevFracDownRaises /\ BlockedGpus # {}
 
 TryOutcome(t) ==
   IF Supplied[t] # <<>> /\ ~DevSuppliedUnmarked
-  THEN IF ShapeOK(Shape[t], Supplied[t], {}) /\ NoBlocked([x \in {t} |-> Supplied[t]])
-          /\ CanTake(O, Supplied[t]) THEN "grant"
-       ELSE IF active = 0 \/ ~ShapeOK(Shape[t], Supplied[t], {})
-               \/ ~NoBlocked([x \in {t} |-> Supplied[t]]) THEN "raise" ELSE "nofit"
+  THEN \* _claim_slots: the application's placement, once it is free
+       IF SupValid(t) /\ CanTake(O, Supplied[t]) THEN "grant"
+       ELSE IF active = 0 \/ ~SupValid(t) THEN "raise" ELSE "nofit"
   ELSE IF Oversize(Shape[t]) \/ FracRaise(t) THEN "raise"
   ELSE IF FitsCode(t) THEN "grant"
   ELSE IF active = 0 THEN "raise" ELSE "nofit"
@@ -274,7 +273,7 @@ UGet ==
 UDone ==
   /\ pc = "unsched" /\ qU = <<>>
   /\ LET r1 == IF resources /\ rwait = "F" /\ rinc = "F" THEN FALSE ELSE resources
-         r2 == IF ~r1 /\ uany THEN TRUE ELSE r1
+         r2 == IF ~r1 /\ uany /\ ~DevNoWakeOnRelease THEN TRUE ELSE r1
      IN  resources' = r2
   /\ pc' = IF act \/ uany THEN "top" ELSE "sleep"
   /\ UNCHANGED <<O, active, pool, qS, qU, plist, clist, rwait, rinc, act, todo,
@@ -314,7 +313,9 @@ InvOnlyNodes      == OnlyNodes(H)
 InvOccMatchesHeld == OccMatchesHeld(O, H)
 
 \* C02
-InvShape == \A t \in Tasks : H[t] # <<>> => ShapeOK(Shape[t], H[t], {})
+InvShape == \A t \in Tasks : H[t] # <<>> => IF Supplied[t] # <<>> /\ ~DevSuppliedUnmarked
+                                              THEN H[t] = Supplied[t]
+                                              ELSE ShapeOK(Shape[t], H[t], {})
 ActColo  == [][\A t \in Tasks : (H[t] = <<>> /\ H'[t] # <<>>) => ShapeColo(Shape[t], H'[t], Hist(t))]_vars
 InvRejectOversize == \A t \in Tasks : (Oversize(Shape[t]) /\ Supplied[t] = <<>>) => H[t] = <<>>
 
@@ -349,4 +350,14 @@ ActPriorityWins ==
 \* liveness (checked under FairSpec, no cancel): a waiting task that fits from
 \* some point on is eventually started
 LiveStarts == \A t \in Tasks : [](where[t] = "waiting" => <>(where[t] # "waiting" \/ ~FitsNow(t)))
+
+\* C04, no starvation: as long as the loop keeps running and every started task is
+\* eventually reported back by the executor, every task the scheduler accepted leaves the
+\* queue / the wait pool (started, failed or canceled) - whatever else arrives, completes
+\* or is canceled in between.  This is where the `resources` flag logic of the loop
+\* (retry the pool only if something was released) is on trial.
+FairLive == Spec /\ WF_vars(Loop) /\ \A t \in Tasks : WF_vars(Complete(t))
+LiveNoStarve == \A t \in Tasks : (where[t] \in {"queued", "waiting"}) ~> (where[t] \notin {"queued", "waiting"})
+\* ... and whatever was started and completed is eventually released
+LiveReleased == \A t \in Tasks : (t \in done) ~> (where[t] = "released")
 =============================================================================
